@@ -47,6 +47,7 @@ Consume ==
        \/ e.ev = "exit" /\ Exit(e.category, e.scheme, e.code)
        \/ e.ev = "proc_exit" /\ pc = "exited" /\ e.code = exitCode /\ UNCHANGED vars
        \/ e.ev = "proc_exit" /\ pc # "exited" /\ ArgparseExit(e.code)
+       \/ e.ev = "disk" /\ ObservedDisk({e.changed[j] : j \in 1..Len(e.changed)}, e.extra)
   /\ i' = i + 1 /\ UNCHANGED <<tid, verdict>>
 
 InvFail ==
